@@ -28,7 +28,7 @@ func TestC17(t *testing.T) {
 	openKF = kit.OpenFindings("C17")
 	kit.Main(t, kit.Spec[Case]{
 		ID: "C17", Level: "exploration",
-		Rule: "history of 2-11 (thorough 2-16; race twin 2-6) calls on ONE TemplateEngine over 5 names: LoadTemplate of sources from the documented grammar (literals, variables, if/else, each with nesting, blocks, image lines), LoadTemplate of derived sources ({{extends}} naming a loaded text or document template, an absent name or the name itself; overriding subsets of 4 block names, so chains and siblings sharing a base arise), LoadTemplateFromDocument of API-built documents (formatted runs, placeholders split over runs, conditionals, inline / multi-paragraph / table-row loops, picture placeholder, header, footer, landscape, saved or not), RenderToDocument / RenderTemplateToDocument of loaded and absent names with one of 1-3 typed data sets, RemoveTemplate, ClearCache, re-loading; then a render of most loaded names; in 40% of the cases (race twin: all) a concurrent phase of 2-4 (2-6) goroutines on a barrier rendering equal and different names and loading / removing names nobody renders. non-trivial = (>=3 loads with >=1 bound extends, >=2 renders, >=1 render of a version after a later load/remove/clear) or (a concurrent phase that ran with >=2 goroutines and >=2 renders after >=2 loads); distinct = distinct sequence of (call kind, name, parent name, directive signature of the source, entry point, data index) incl. the concurrent jobs",
+		Rule: "history of 2-11 (thorough 2-16; race twin 2-6) calls on ONE TemplateEngine over 5 names: LoadTemplate of sources from the documented grammar (literals, variables, if/else, each with nesting, blocks, image lines), LoadTemplate of derived sources ({{extends}} naming a loaded text or document template, an absent name or the name itself; overriding subsets of 4 block names, so chains and siblings sharing a base arise), LoadTemplateFromDocument of API-built documents (formatted runs, placeholders split over runs, conditionals, inline / multi-paragraph / table-row loops, tables with {{var}} cells and formatted cells, tables nested 1-2 levels in cells of plain / header / template / trailing rows with variables, conditionals and loop rows of their own, picture placeholder, header, footer, landscape, saved or not), RenderToDocument / RenderTemplateToDocument of loaded and absent names with one of 1-3 typed data sets, RemoveTemplate, ClearCache, re-loading; then a render of most loaded names; in 40% of the cases (race twin: all) a concurrent phase of 2-4 (2-6) goroutines on a barrier rendering equal and different names and loading / removing names nobody renders. non-trivial = (>=3 loads with >=1 bound extends, >=2 renders, >=1 render of a version after a later load/remove/clear) or (a concurrent phase that ran with >=2 goroutines and >=2 renders after >=2 loads); distinct = distinct sequence of (call kind, name, parent name, directive signature of the source, entry point, data index) incl. the concurrent jobs",
 		Gen:  genCase, Run: run, Findings: findings,
 		Fixed: func() []Case {
 			if os.Getenv("C17_NOFIXED") != "" { // development aid: sensitivity of the generated search alone
@@ -45,7 +45,7 @@ func TestC17(t *testing.T) {
 			"a load that fails or panics ends the history (loads are judged by C16.T0)",
 		},
 		MustSee: map[string]float64{"load:extends-bound": 0.5, "render:base-after-child-load": 0.25, "render:child-with-sibling": 0.12, "render:chain>=3": 0.08,
-			"render:doc-template": 0.15, "load:reload-other-source": 0.15, "remove:loaded-name": 0.15, "clear:non-empty": 0.04, "render:after-intervening-calls": 0.5,
+			"render:doc-template": 0.15, "doc:table-with-placeholders": 0.15, "doc:nested-table": 0.08, "load:reload-other-source": 0.15, "remove:loaded-name": 0.15, "clear:non-empty": 0.04, "render:after-intervening-calls": 0.5,
 			"render:ancestor-reloaded-or-removed": 0.05, "render:name-not-loaded": 0.08, "conc:ran": 0.3, "conc:same-name-in-2-goroutines": 0.25, "conc:with-loads/removals": 0.15},
 	})
 }
